@@ -54,6 +54,7 @@ def layouts_for(keys):
     for header in ("names", "letters", "items-only"):
         lays.append(dict(wide=None, index=[], header=header))
     lays.append(dict(wide=None, index=list(keys), header="names"))
+    lays.append(dict(wide=None, index=[], header="names", rowindex="repeat", rowperm="rot1"))
     lays.append(dict(wide=None, index=[keys[0]], header="letters", colperm="rev"))
     if len(keys) >= 2:
         lays.append(dict(wide=keys[-1], index=[], header="names"))
